@@ -58,6 +58,23 @@ add("C15", "proptest-sharded",
     "Generated sentences (any labels incl. unknown, any tags) over a grapheme-cluster-heavy pool; after-state compared with an independent reference rule applied to the before-state; text/types/n_tags/scores untouched; f(f(s)) = f(s).",
     "unicode-segmentation is trusted for what a grapheme cluster is.")
 
+add("C09", "proptest-sharded+hooks",
+    "property-based testing: generated training configurations x corpora; trained predictor against a reference model built from the recorded learner coefficients (verif-hooks) and reference feature extraction",
+    "Real liblinear training on tiny generated corpora for all solvers and window/n-gram combinations (differing windows, n > window, window 0, dictionaries with bucket overflow); every score of the trained predictor must equal recorded bias + recorded weights of the reference features; stored vector lengths must match the n-gram's own window.",
+    "Needs cargo feature verif-hooks (records quantised coefficients inside Trainer::train). liblinear trusted as a function of its inputs within one call.")
+add("C10", "proptest-sharded+hooks",
+    "property-based testing: trainer's example store (verif-hooks accessor) against reference feature extraction, checked after every added sentence",
+    "Generated corpora mixing tokenized, partial and unannotated sentences x window/n-gram sizes incl. 0 and n > window x dictionaries and buckets; the stored examples must equal one reference example per annotated boundary with label and feature multiset.",
+    "Needs cargo feature verif-hooks (read-only Trainer::verif_examples).")
+add("C11", "proptest-sharded",
+    "property-based testing: totality sweep over training configurations and degenerate corpora with usability invariants on every returned model",
+    "Parameters from {0,1,2,3,4,7}, all solvers, corpora incl. empty / single-class / all-unknown / tagged / tag dictionary: no panic in new/add_example/train; every returned model round-trips, has 16-bit weights, is accepted by Predictor::new with and without tags and predicts/tags arbitrary text.",
+    "A liblinear hang is mapped to exit 2 by a watchdog.")
+add("C12", "proptest-sharded+hooks",
+    "property-based testing: set equality of candidate lists against a reference reading of the corpus, behavioural clauses on predictions, stored scores against the recorded classifier (verif-hooks) applied to reference tag features",
+    "Generated tagged corpora with repeated, ambiguous tokens and tag dictionaries; mirror-decoded candidate lists, vector sizes, predictions on corpus and fresh sentences and every stored candidate score are compared with independent references; the feature universe of each recorded classifier must equal the documented tag features of its training occurrences.",
+    "Needs cargo feature verif-hooks for the score clause; tokens present untagged in the corpus AND in the dictionary are left unspecified.")
+
 PLANNED = {
 }
 
